@@ -9,7 +9,7 @@ from harness import refcodec as rc
 from harness import refdev
 
 RULE = ("real SerialDevice (pyserial) on the slave side of an os.openpty() pseudo-terminal, the harness on the master side: "
-        "every byte value 0..255 in both directions singly and in one 256-byte block, bursts of 1..4096 random bytes, writer "
+        "every byte value 0..255 in both directions singly and in one 256-byte block, bursts of 1..4096 random bytes, single writes of 32 KiB (thorough: up to 256 KiB) read concurrently at the far end, writer "
         "pacing varied (one write, split writes with pauses), idle reads timed, write padding 0/3/16 observed at the far end; "
         "a full client session (connect, enable, stream, samples) over the pty against the reference device compared with the "
         "same session over the ideal in-process link; non-trivial = distinct (direction, payload, pacing)")
@@ -106,6 +106,27 @@ def pipe_checks(run, rng):
             run.count("burst-out", ("bout", n, data[:8]))
             if got != data:
                 run.violation("burst of %d bytes written by the client was altered" % n, {"direction": "to device", "size": n, "received": len(got)})
+                return
+        # large writes: more than the tty accepts at once; the far end reads concurrently
+        for n in ([32768] if not run.thorough else [16384, 65536, 262144]):
+            data = rng.bytes(n)
+            box = {}
+
+            def rd(n=n):
+                box["got"] = p.master_read(n, 10.0)
+            rt = threading.Thread(target=rd, daemon=True)
+            rt.start()
+            try:
+                p.dev.write(data)
+            except Exception as e:  # noqa: BLE001
+                box["exc"] = "%s: %s" % (type(e).__name__, e)
+            rt.join(12)
+            got = box.get("got", b"")
+            run.count("large-write", ("lw", n))
+            if "exc" in box or got != data:
+                run.violation("a write of %d bytes by the client did not arrive intact (%d bytes arrived%s)" % (
+                    n, len(got), ", write raised " + box["exc"] if "exc" in box else ""),
+                    {"direction": "to device", "size": n, "received": len(got)})
                 return
         # padding
         for pad in (0, 3, 16):
